@@ -729,3 +729,47 @@ def rule_escape_units(run, prog):
     run.ob("R-10.9", f"{pop.key}::escape-units", bad is None,
            (f"pop(use_escape=True) on {bad[0]!r} returns {bad[1]!r} but moves the cursor to offset {bad[2]} ({bad[0][:bad[2]]!r}): "
             f"{bad[2] - len(bad[1])} character(s) are in no token") if bad else "", pop.node, evaluations=n)
+    rule_tokenizer_reaches(run, prog)
+
+
+def rule_tokenizer_reaches(run, prog):
+    run.rule("R-10.10", "the tokenizer as a whole reaches every sub-parser: get_next_token, interpreted with the tree's own "
+             "sub-parsers and its own way of selecting them, gives every key of the operator / bracket / keyword tables its kind, "
+             "every literal prefix its string / character literal, digits a CONSTANT, blanks, newline and both comment forms their "
+             "kinds, each time consuming exactly the lexeme", floor=1)
+    gnt = prog.method("Lexer", "get_next_token")
+    run.require(gnt is not None, "anchor vanished: Lexer.get_next_token")
+    dm = prog.mod("lexer/dictionary.py")
+    try:
+        T = {t: fold_name(t, dm) for t in ("keywords", "operators", "brackets", "trigraphs", "digraphs")}
+        prefixes = sorted({p for p in fold_name("quote_prefixes", prog.mod("lexer/lexer.py")) if isinstance(p, str)} | {""})
+    except Unknown as e:
+        raise AnalysisError(f"lexer tables do not fold: {e}")
+    spell = list(T["trigraphs"]) + list(T["digraphs"])
+    cases = []
+    for tn in ("operators", "brackets"):
+        for k, kind in sorted(T[tn].items()):
+            if not any(sp in k for sp in spell):
+                cases.append((k, " x", kind))
+    for k, kind in sorted(T["keywords"].items()):
+        cases.append((k, " x", kind))
+    for p_ in prefixes:
+        cases.append((p_ + '"a b"', ";", "STRING"))
+        cases.append((p_ + "'a'", ";", "CHAR_CONST"))
+    cases += [("42", ";", "CONSTANT"), ("0x1f", ";", "CONSTANT"), ("1.5f", ";", "CONSTANT"), (".5", ";", "CONSTANT"), ("name_1", ";", "IDENTIFIER"),
+              ("_x", ";", "IDENTIFIER"), (" ", "x", "SPACE"), ("\t", "x", "TAB"), ("\n", "x", "NEWLINE"), ("// c", "\nx", "COMMENT"),
+              ("/* c */", "x", "MULT_COMMENT")]
+    bad, n = None, 0
+    try:
+        for lexeme, tail, kind in cases:
+            n += 1
+            sim = LexerSim(prog, lexeme + tail)
+            out = sim.call("get_next_token")
+            got = getattr(out.value, "type", None) if out.kind == "ok" else repr(out)
+            if (got != kind or sim.pos != len(lexeme) or sim.error_names()) and bad is None:
+                bad = (lexeme, kind, got, sim.pos, sim.error_names())
+    except Unsupported as e:
+        raise Undecided(f"Lexer.get_next_token is outside the evaluable subset: {e}")
+    run.ob("R-10.10", f"{gnt.key}::reaches-every-sub-parser", bad is None,
+           (f"get_next_token on {bad[0]!r} gives {bad[2]} and consumes {bad[3]} character(s) (diagnostics {bad[4]}), expected {bad[1]} "
+            f"and the whole lexeme: the sub-parser that recognises it is not reached") if bad else "", gnt.node, evaluations=n)
